@@ -132,9 +132,10 @@ func genFormula(t *rapid.T, allowMixed bool) formula {
 	return f
 }
 
-// large: one case in twenty is a tall or long alignment
+// large: about one case in thirty is a tall or long alignment (an interior value of the range:
+// rapid favours the bounds)
 func genMaybeLarge(t *rapid.T, allowMixed bool) *formula {
-	if rapid.IntRange(0, 19).Draw(t, "large") != 0 {
+	if rapid.IntRange(0, 29).Draw(t, "large") != 13 {
 		return nil
 	}
 	f := genFormula(t, allowMixed)
